@@ -303,7 +303,7 @@ func TestC18Connections(t *testing.T) {
 }
 
 func TestC18Rate(t *testing.T) {
-	rec := vt.NewRec(t, "C18", "rate-end-to-end", "serving peer with overloader.New{MaxTotalQPS:Q, QPSInterval} and the real ticker; bursts of calls and pushes from 1-3 sessions; oracle (sound: wall clock only loosens it): handler runs == OK replies, every rejected call receives an error reply, admitted <= Q + (floor(elapsed/interval)+1) x (refill+1); non-trivial = a burst larger than Q; distinct by case")
+	rec := vt.NewRec(t, "C18", "rate-end-to-end", "serving peer with overloader.New{MaxTotalQPS:Q, QPSInterval} and the real ticker, in two cases out of five reached through Update from a configuration with another interval and / or a larger limit; bursts of calls and pushes from 1-3 sessions (three waves 120 ms apart after an Update); oracle (sound: wall clock only loosens it): handler runs == OK replies, every rejected call receives an error reply, admitted <= Q + (floor(elapsed/interval)+1) x (refill+1); non-trivial = a burst larger than Q; distinct by case")
 	protos := vt.StreamProtos()
 	rapid.Check(t, func(t *rapid.T) {
 		vt.Init()
@@ -317,7 +317,23 @@ func TestC18Rate(t *testing.T) {
 		if rec.WantSample() && int32(burst+pushes) > q {
 			rec.Sample(map[string]interface{}{"max_total_qps": q, "interval": interval.String(), "sessions": nsess, "calls": burst, "pushes": pushes})
 		}
-		ov := overloader.New(overloader.LimitConfig{MaxTotalQPS: q, QPSInterval: interval})
+		// the configuration in force may have been reached through Update from another one
+		// (other limit and / or other interval); then the load comes in three waves 120 ms apart
+		// so that ticks of a stale period would show
+		prior := rapid.SampledFrom([]string{"", "", "interval", "limit", "both"}).Draw(t, "prior")
+		cfg0 := overloader.LimitConfig{MaxTotalQPS: q, QPSInterval: interval}
+		switch prior {
+		case "interval", "both":
+			if interval == time.Second {
+				cfg0.QPSInterval = 100 * time.Millisecond
+			} else {
+				cfg0.QPSInterval = time.Second
+			}
+		}
+		if prior == "limit" || prior == "both" {
+			cfg0.MaxTotalQPS = q + int32(rapid.IntRange(1, 200).Draw(t, "priorq"))
+		}
+		ov := overloader.New(cfg0)
 		w := vt.NewWorld()
 		defer w.Close()
 		srv := w.Peer(erpc.PeerConfig{}, ov)
@@ -332,9 +348,38 @@ func TestC18Rate(t *testing.T) {
 			}
 			links = append(links, l)
 		}
+		waves := 1
+		if prior != "" {
+			ov.Update(overloader.LimitConfig{MaxTotalQPS: q, QPSInterval: interval})
+			// the tokens of the earlier configuration may legitimately be spent until the next
+			// tick clamps them: let the old and the new period pass once, then drain
+			time.Sleep(cfg0.QPSInterval/10 + 5*time.Millisecond)
+			if cfg0.QPSInterval == 100*time.Millisecond || interval == 100*time.Millisecond {
+				time.Sleep(110 * time.Millisecond)
+			}
+			waves = 3
+		}
 		start := time.Now()
 		var okReplies, errReplies int32
 		var wg sync.WaitGroup
+		for wv := 1; wv < waves; wv++ {
+			// earlier waves: same burst, their outcome is added to the totals
+			var wwg sync.WaitGroup
+			for i := 0; i < burst; i++ {
+				wwg.Add(1)
+				go func(i int) {
+					defer wwg.Done()
+					cmd := links[i%nsess].A.Call(route, &LibArg{Rid: fmt.Sprintf("w%dc%d", wv, i), Act: "ret", Val: "v"}, new(LibRes))
+					if cmd.StatusOK() {
+						atomic.AddInt32(&okReplies, 1)
+					} else {
+						atomic.AddInt32(&errReplies, 1)
+					}
+				}(i)
+			}
+			wwg.Wait()
+			time.Sleep(120 * time.Millisecond)
+		}
 		for i := 0; i < burst; i++ {
 			wg.Add(1)
 			go func(i int) {
@@ -373,14 +418,19 @@ func TestC18Rate(t *testing.T) {
 		if int32(handled) != okReplies {
 			t.Fatalf("C18 violated: %d call handlers ran but %d calls got an OK reply", handled, okReplies)
 		}
-		if okReplies+errReplies != int32(burst) {
-			t.Fatalf("C18 violated: %d calls, %d OK + %d error replies", burst, okReplies, errReplies)
+		if okReplies+errReplies != int32(burst*waves) {
+			t.Fatalf("C18 violated: %d calls, %d OK + %d error replies", burst*waves, okReplies, errReplies)
 		}
 		once := q / int32(time.Second/interval)
 		if once == 0 {
 			once = 1
 		}
 		bound := int64(q) + (int64(elapsed/interval)+1)*int64(once+1)
+		if prior == "limit" || prior == "both" {
+			// tokens of the larger earlier limit may be spent until a tick of the new
+			// configuration clamps them (when that tick runs is up to the scheduler)
+			bound += int64(cfg0.MaxTotalQPS - q)
+		}
 		if admitted := int64(handled + pushed); admitted > bound {
 			t.Fatalf("C18 violated: %d calls+pushes admitted in %v, bound %d (capacity %d, refill %d per %v)", admitted, elapsed, bound, q, once, interval)
 		}
